@@ -243,7 +243,8 @@ def differential(ex, outdir, seed, skip=()):
                     eq.append("    if (a->%s != b->%s) return 0;" % (path, path))
             elif ct.startswith("bitfield:"):
                 w = int(ct.split(":")[1])
-                fl.append("    p->%s = (vf_rnd () >> 16) & %d;" % (path, (1 << w) - 1 if w < 31 else 0x7fffffff))
+                # multi-bit fields hold enumerations here (Euler::Axis): stay below the all-ones pattern, which is no enumerator
+                fl.append("    p->%s = (vf_rnd () >> 16) %% %d;" % (path, ((1 << w) - 1) if 1 < w < 31 else 2))
                 eq.append("    if (a->%s != b->%s) return 0;" % (path, path))
             else:
                 ok = False
